@@ -135,6 +135,14 @@ def vwmaS (p : Nat) : Sig α :=
     if Arith.gt vwma sma then buy else if Arith.gt sma vwma then sell else hold)
     (sma p sClose) (vwma p sClose sVol))
 
+/-- VwmaStrategy with separately configured `Sma.Period` (ps) and `Vwma.Period` (pv), after fix F14: the earlier average is
+    forwarded (`helper.SyncPeriod`) so that both refer to the same snapshot; warm-up = the longer idle period -/
+def vwmaGS (ps pv : Nat) : Sig α :=
+  shift (Nat.max (ps - 1) (pv - 1)) hold (zip (fun sma vwma =>
+    if Arith.gt vwma sma then buy else if Arith.gt sma vwma then sell else hold)
+    (syncPeriod (Nat.max (ps - 1) (pv - 1)) (ps - 1) (sma ps sClose))
+    (syncPeriod (Nat.max (ps - 1) (pv - 1)) (pv - 1) (vwma pv sClose sVol)))
+
 def weightedCloseS (p : Nat) : Sig α :=
   let wc := weightedClose sHigh sLow sClose
   shift (p - 1) hold (zip (fun wc ma => if Arith.gt wc ma then buy else sell) (skip (p - 1) wc) (sma p wc))
@@ -234,6 +242,7 @@ def lookupS (name : String) (ns : List Nat) (fs : List α) : Option (SEntry α) 
   | "Trix" => some ⟨trixS (n 0), n 0 * 3 - 3 + 1⟩
   | "Tsi" => some ⟨tsiS (n 0) (n 1) (n 2), ((n 0 - 1) + (n 1 - 1) + 1) + (n 2 - 1)⟩
   | "Vwma" => some ⟨vwmaS (n 0), n 0 - 1⟩
+  | "VwmaG" => some ⟨vwmaGS (n 0) (n 1), Nat.max (n 0 - 1) (n 1 - 1)⟩
   | "WeightedClose" => some ⟨weightedCloseS (n 0), n 0 - 1⟩
   | "AwesomeOscillator" => some ⟨awesomeS (n 0) (n 1), n 1 - 1⟩
   | "Rsi" => some ⟨rsiS (n 0) (f 0) (f 1), (n 0 - 1) + 1⟩
